@@ -34,6 +34,8 @@ def check_closed(toks, what, extra_allowed=()):
     """fail closed: no macro invocation may be left in translated text"""
     for i, t in enumerate(toks[:-2]):
         if toks[i + 1] == "!" and toks[i + 2] in ("(", "[", "{") and re.match(r"[A-Za-z_]\w*$", t):
+            if t in ("if", "while", "match", "return", "in", "else", "let", "mut", "move", "ref", "break", "continue", "loop", "for", "as"):
+                continue
             if t not in ALLOWED_MACROS and t not in extra_allowed:
                 raise Undecided(f"{what}: not translatable: macro `{t}!` left after all rules")
 
